@@ -33,7 +33,7 @@ META = {
     'components_stub': ['S3 bucket', 'directory listing order', 'uuid / clock'],
     'budgets': {'quick': {'seconds': 35}, 'thorough': {'seconds': 480}},
     'required_probes': {'thorough': ['s3_default_empty_prefix', 'category_prefix_sibling', 'filter_absent_key', 'filter_list', 'filter_operator', 'filter_pattern',
-                                     'limit_below_matches', 'random_order', 'skip_incomplete_lookup', 'recorder_made_recording', 'restart', 'interleaved_lookups', 'saved_twice_under_one_id']},
+                                     'limit_below_matches', 'random_order', 'skip_incomplete_lookup', 'recorder_made_recording', 'restart', 'interleaved_lookups', 'saved_twice_under_one_id', 'failed_save_in_history']},
 }
 
 
@@ -144,6 +144,18 @@ def scenario(run, tape, clock, stores):
                 if resave:
                     cas.save_recording(r)      # saved again under the same id: still one recording
                 ids[name][i] = r.id
+        if tape.draw(10) == 9:
+            # a save that fails because a value cannot be serialized: nothing may be listed for it, listings keep working
+            run.probe('failed_save_in_history')
+            for name in ('memory', 'file', 's3'):
+                cas = cass[name]
+                r = cas.create_new_recording(cats[i])
+                r.set_data('k', R.D.Unserializable(2))
+                r.add_metadata(copy.deepcopy(md))
+                try:
+                    cas.save_recording(r)
+                except Exception:
+                    pass
         if by_recorder:
             md = dict(md)
             md[INC] = flag == 'incomplete'
